@@ -16,6 +16,7 @@ import (
 	fiatshamir "github.com/consensys/gnark-crypto/fiat-shamir"
 	gchash "github.com/consensys/gnark-crypto/hash"
 	_ "github.com/consensys/gnark-crypto/ecc/bn254/fr/poseidon2"
+	_ "github.com/consensys/gnark-crypto/ecc/grumpkin/fr/mimc"
 	_ "github.com/consensys/gnark-crypto/hash/all"
 
 	"verifh/vlib"
@@ -25,17 +26,31 @@ type hashSpec struct {
 	name   string
 	mk     func() hash.Hash
 	values [][]byte
+	extra  bool // explored with two names only
 }
 
-func canon32(b byte) []byte { v := make([]byte, 32); v[31] = b; v[0] = 0x01; return v }
+func canonN(n int, b byte) []byte { v := make([]byte, n); v[n-1] = b; v[1] = 0x01; return v }
 
 func specs() []hashSpec {
-	ff := bytes.Repeat([]byte{0xff}, 32)
-	return []hashSpec{
-		{"sha256", sha256.New, [][]byte{{}, {7}, bytes.Repeat([]byte{0xab}, 64), {1, 2, 3}}},
-		{"mimc_bn254", func() hash.Hash { return gchash.MIMC_BN254.New() }, [][]byte{{}, {1, 2, 3}, canon32(5), ff}},
-		{"poseidon2_bn254", func() hash.Hash { return gchash.POSEIDON2_BN254.New() }, [][]byte{{}, {1, 2, 3}, canon32(5), ff}},
+	l := []hashSpec{
+		{"sha256", sha256.New, [][]byte{{}, {7}, bytes.Repeat([]byte{0xab}, 64), {1, 2, 3}}, false},
 	}
+	add := func(name string, id gchash.Hash, extra bool) {
+		bs := id.New().BlockSize()
+		// empty, a short write (padded by MiMC), one canonical block, one non-canonical block
+		l = append(l, hashSpec{name, func() hash.Hash { return id.New() }, [][]byte{{}, {1, 2, 3}, canonN(bs, 5), bytes.Repeat([]byte{0xff}, bs)}, extra})
+	}
+	add("mimc_bn254", gchash.MIMC_BN254, false)
+	add("poseidon2_bn254", gchash.POSEIDON2_BN254, false)
+	// the MiMC of every other curve (their digests are separate generated copies): two names only
+	add("mimc_bls12_381", gchash.MIMC_BLS12_381, true)
+	add("mimc_bls12_377", gchash.MIMC_BLS12_377, true)
+	add("mimc_bw6_761", gchash.MIMC_BW6_761, true)
+	add("mimc_bls24_315", gchash.MIMC_BLS24_315, true)
+	add("mimc_bls24_317", gchash.MIMC_BLS24_317, true)
+	add("mimc_bw6_633", gchash.MIMC_BW6_633, true)
+	add("mimc_grumpkin", gchash.MIMC_GRUMPKIN, true)
+	return l
 }
 
 // ---- operations ----
@@ -309,9 +324,16 @@ func main() {
 			if spec.name != "sha256" && k > 2 && r.Quick() {
 				continue
 			}
+			if spec.extra && k != 2 {
+				continue
+			}
 			group := fmt.Sprintf("%s/k%d", spec.name, k)
 			groups = append(groups, group)
-			bodies[group] = func() { explore(r, spec, names, depthFor[k], group) }
+			depth := depthFor[k]
+			if spec.extra && r.Quick() {
+				depth = 5
+			}
+			bodies[group] = func() { explore(r, spec, names, depth, group) }
 		}
 	}
 	r.Parallel(groups, func(g string) { bodies[g]() })
